@@ -252,6 +252,30 @@ func cmdWLink(o opts) {
 					items[i] = witem{kind: "msg", d: ix[reflect.TypeOf(m)], msg: m, vals: zeroVals(m)}
 				}
 			}
+			if mode == "c06" {
+				// largest frames: payloads of exactly 255 bytes that do not shrink (last byte non-zero)
+				for _, m := range com.Messages {
+					if _, ext := sizesOf(defOf(m)); ext == 255 {
+						sh := shapes(defOf(m))
+						full := make([][]B, len(sh))
+						for i, s := range sh {
+							if s.isStr {
+								full[i] = []B{B(bytesOf('Z', s.strlen))}
+							} else {
+								full[i] = make([]B, s.n)
+								for k := range full[i] {
+									full[i][k] = B(bytesOf(0x7E, s.gosize))
+								}
+							}
+						}
+						items = append(items, witem{kind: "msg", d: ix[reflect.TypeOf(m)], msg: m, vals: full})
+						rwm := drw.GetMessage(m.GetID())
+						pl, _ := safeWrite(rwm, newMsg(m, full), true)
+						items = append(items, witem{kind: "raw", id: int(m.GetID()), payload: pl})
+						break
+					}
+				}
+			}
 			runLink(rec, impl, cfg, drw, dl, items, "keyed")
 		}
 	}
